@@ -79,3 +79,21 @@ package alg
 //@   loop 0: invariant tcat(rawtxt(b.Ptr + pre(len(buf)), b.Len - pre(len(buf))), native.quoteSpec(rawtxtat(sp, ptrlo(sp) + len(val) - nb, nb), qflags(double))) == native.quoteSpec(txt(val), qflags(double))
 //@   after native.Quote: assert tcat(rawtxt(b.Ptr + (len(buf0) + qlen(double)), b.Len - (len(buf0) + qlen(double))), rawtxt(b.Ptr + b.Len, dn)) == rawtxt(b.Ptr + (len(buf0) + qlen(double)), b.Len + dn - (len(buf0) + qlen(double)))
 //@   loop 0: modifies buf, buf[_]
+
+// F64toa / F32toa (used by the interpreting encoder only; the JIT calls the native
+// routine directly): buf ++ the native formatting of v, for every finite v including
+// both zeros (C12: same text as the JIT; C19/C03: "-0" for negative zero).
+//@ func F64toa props C12,C19,C06
+//@   requires !isNaN(v) && !isInf(v)
+//@   modifies buf[_]
+//@   ensures base(result) == base(buf) || fresh(result)
+//@   ensures len(result) > len(buf)
+//@   ensures forall j int :: (0 <= j && j < len(buf)) ==> result[j] == old(buf[j])
+//@   ensures subtxt(result, len(buf), len(result) - len(buf)) == native.f64Spec(v)
+//@ func F32toa props C12,C19,C06
+//@   requires !isNaN(v) && !isInf(v)
+//@   modifies buf[_]
+//@   ensures base(result) == base(buf) || fresh(result)
+//@   ensures len(result) > len(buf)
+//@   ensures forall j int :: (0 <= j && j < len(buf)) ==> result[j] == old(buf[j])
+//@   ensures subtxt(result, len(buf), len(result) - len(buf)) == native.f32Spec(v)
